@@ -24,6 +24,7 @@ pub mod c19_blob;
 pub mod c20_frames;
 pub mod c20_garbage;
 pub mod c20_ids;
+pub mod c20_vectors;
 
 pub type RunFn = fn(Tier, u64) -> Report;
 pub type ReplayFn = fn(&str, &Value) -> Result<String, String>;
@@ -53,5 +54,6 @@ pub fn all() -> Vec<(&'static str, RunFn, ReplayFn)> {
         ("c20_frames", c20_frames::run, c20_frames::replay),
         ("c20_garbage", c20_garbage::run, c20_garbage::replay),
         ("c20_ids", c20_ids::run, c20_ids::replay),
+        ("c20_vectors", c20_vectors::run, c20_vectors::replay),
     ]
 }
